@@ -260,6 +260,10 @@ def c19(run):
     scs += vlib.gen_random(run, binary, "compose", 2500 if quick else 30000, "C19")
     chunks = max(1, min(vlib.NCPU // 2, len(scs) // 400))
     traces = vlib.replay(run, binary, "query", scs, "q", chunks=chunks)
+    # the same through the distributed engine (another planner path: its results must be as well formed):
+    # Gen_WF's scenarios and every fifth of the others
+    dscs = [dict(s, id=s["id"] + "-dist") for i, s in enumerate(scs) if "-wf-" in s["id"] or i % 5 == 0]
+    traces += vlib.replay(run, binary, "querydist", dscs, "qd", chunks=max(1, min(vlib.NCPU // 2, len(dscs) // 400)))
     viols, stats = vlib.validate(run, "QueryTrace", traces, "q")
     st = sum_stats(stats)
     hdr = headers_of(traces, {v[0] for v in viols})
@@ -271,7 +275,7 @@ def c19(run):
     if executed <= 0:
         raise Infra("vacuous run")
     return vlib.finish(run, "model_checking",
-                       rule=("Every result produced for the scenarios of all query generators (TLC), of the random generator and of the dedicated "
+                       rule=("Every result produced - by the plain engine, and for Gen_WF and a fifth of the rest also by the distributed engine - for the scenarios of all query generators (TLC), of the random generator and of the dedicated "
                              "family Gen_WF.tla (magnitudes of 1e308 overflowing to Inf, denormals, selectors whose name-dropping makes series "
                              "collide, group_left labels that already exist or sort first, empty results) is validated by TLC against the "
                              "well-formedness clauses of QueryTrace.tla (WFKind, WFSorted incl. pairwise distinct label sets, WFNonEmpty, "
@@ -380,6 +384,13 @@ def c10(run):
     # histograms (whose buckets get spread over the engines), name collisions, extreme magnitudes
     scs += vlib.generate(run, "Gen_WF", gen_cfg(run.tier, run.seed, 1, ["EmitWF"]), "wf", fam="C10")
     scs += vlib.gen_random(run, binary, "compose", 600 if quick else 12000, "C10")
+    # constructs the engine does not support (fallback enabled everywhere), in every syntactic position
+    write_vocab(run, binary)
+    fb = vlib.generate(run, "Gen_Fallback", gen_cfg(run.tier, run.seed, 4 if quick else 1, ["EmitFb"]), "fb", fam="C10", timeout=1500)
+    for s in fb:
+        s.setdefault("cfg", {})["fallback"] = 1
+    log("Gen_Fallback.tla: %d query texts with the fallback enabled" % len(fb))
+    scs += fb
     chunks = max(1, min(vlib.NCPU // 2, len(scs) // 200))
     traces = vlib.replay(run, binary, "dist", scs, "d", chunks=chunks)
     st = session_validate(run, traces, lambda clause, fam: ["C10"] if clause == "Agree" else (["C13"] if clause == "ProcessDead" else []))
@@ -518,7 +529,7 @@ FAULT_CLAUSES = {
     "C15": {"ErrorSurfaces"},
     "C17": {"QuerierBeforeExec", "QuerierAfterReturn", "QuerierClosedOnce", "DataUnmodified"},
 }
-FAULT_MODES = {"C13": ["panic"], "C14": ["cancel", "block", "cancelcall", "gate"], "C15": ["err", "errdown"], "C17": ["err", "errdown", "panic", "cancel", "block"]}
+FAULT_MODES = {"C13": ["panic", "panic+lag"], "C14": ["cancel", "block", "cancelcall", "gate"], "C15": ["err", "errdown", "err+lag"], "C17": ["err", "errdown", "panic", "cancel", "block"]}
 
 
 def mc_exec(run):
